@@ -8,6 +8,9 @@ CLAIMED = {
  "C01": ("reference-model monitor over generated + exhaustive-grid executions",
          "Every Search / Compile+Search execution of an exhaustive selector-chain grid (all chains of <=3/4 selectors x 7 roots x 12 documents) and of seeded document-directed random core-language expressions is compared with an independent reference evaluator; held = no disagreement on any decided case explored.",
          "Trusts the reference model where it decides (calibrated on the whole compliance corpus, abstains where the spec is open); covers only the executions produced.", "§6 C01"),
+ "C02": ("reference-model monitor over an exhaustive argument-type matrix, a boundary lattice and generated calls",
+         "Every builtin x every arity 0..max+1 x every argument vector over a 23-value pool (exhaustive to arity 3, arity 4 exhaustive in thorough), an exhaustive integer-parameter boundary lattice, and seeded document-directed calls (incl. caller-scope expression references) are executed through Search and compared with independent reference builtins (value, or error category).",
+         "Trusts the reference builtins where they decide (abstentions listed in ref/DETERMINACY.md); huge pad widths are not executed (known finding on C03).", "§6 C02"),
 }
 
 ALL = ["C%02d" % i for i in range(1, 21)]
